@@ -120,3 +120,9 @@ var Spaces = []API{
 		PrimB: func() ciexyy.Color { return displayp3.PrimaryBlue }, White: func() ciexyy.Color { return displayp3.StandardWhitePoint },
 	},
 }
+
+// FromNRGBAch decodes a single 8-bit channel through the space's NRGBA constructor.
+func (a *API) FromNRGBAch(v uint8) float32 {
+	c, _ := a.FromNRGBA(color.NRGBA{R: v, A: 255})
+	return c.R
+}
